@@ -10,39 +10,39 @@ NOTE = ("Sampled executions of the tree's contracts in the soroban-sdk 22 native
 
 CHECKS = {
  "C01": ("Runtime monitoring: every crafted submission (28 honest / corruption classes, each at least once per universe, interleaved with further "
-         "rotations and byte-identical resubmissions) is executed against the real gateway and compared with a three-valued reference verifier "
+         "rotations, ledger advancement and byte-identical resubmissions) is executed against the real gateway and compared with a three-valued reference verifier "
          "whose digests/XDR/Keccak are computed independently and whose signature validity is known by construction; refused submissions are "
          "diffed against the full pre-state.",
          "runtime monitor: reference-model oracle over crafted proofs + failed-call ledger diff"),
  "C02": ("Runtime monitoring: per-key state machine stepped in lock-step with the gateway over colliding (chain,id) keys, with ledger advancement; "
-         "every key x content (and single-field variations) queried after every operation; offline exactly-once checker over the recorded event log.",
+         "keys that coincide when joined with or without a delimiter; every key x content (and single-field variations) queried after every operation; offline exactly-once checker over the recorded event log.",
          "runtime monitor: reference state machine + status sweep + offline event-log checker"),
- "C03": ("Runtime monitoring: rotation and construction attempts (12 candidate classes x 9 proof classes, retention up to u64::MAX, ledger "
+ "C03": ("Runtime monitoring: rotation and construction attempts (12 candidate classes x 10 proof classes, including proofs pre-validated through validate_proof, retention up to u64::MAX, ledger "
          "advancement) against a by-value gateway model; epoch and both lookups swept after every operation over all epochs and all hashes ever "
          "seen (including rejected candidates); failed operations diffed against the pre-state; constructor failures observed through a factory.",
          "runtime monitor: reference model + lookup sweep + failed-call ledger diff"),
- "C04": ("Runtime monitoring: for every conforming hub delivery, 30 classes of single-deviation deliveries (each with the approval that matches "
+ "C04": ("Runtime monitoring: for every conforming hub delivery, 31 classes of single-deviation deliveries (each with the approval that matches "
          "it otherwise) are executed against the real service at a checkpoint and must fail without touching the ledger; the conforming delivery "
-         "must take effect exactly once (also after re-approval); payloads are built with the independent ABI encoder.",
+         "must take effect exactly once (also after re-approval and after every temporary entry has expired); payloads are built with the independent ABI encoder.",
          "runtime monitor: single-deviation delivery variants vs reference model + failed-call ledger diff + exactly-once"),
  "C05": ("Runtime monitoring: balance/custody/supply model over all (token, holder) pairs stepped with outbound and approved inbound transfers, "
-         "trusted-chain changes, holders' burns, minter mints and ledger advancement over service-deployed (tree code) and canonical tokens; the "
+         "trusted-chain changes, holders' burns, minter mints, redelivery of executed transfers and ledger advancement (up to the expiry of every temporary entry) over service-deployed (tree code) and canonical tokens; the "
          "announcement to the hub is compared with the independent ABI encoder and Keccak; offline conservation checker per token.",
          "runtime monitor: balance/custody reference model + announcement oracle + offline conservation"),
  "C06": ("Runtime monitoring, finite matrix enumerated completely: 38 administrative entry points x 5 role-transfer histories x up to 8 principals; "
          "the authorisation forest the code asks for is recorded and replayed with the principal substituted (or withheld, or recorded for other "
-         "arguments) at a checkpoint; refused calls diffed against the pre-state; roles re-read after 1.3 M ledgers.",
+         "arguments) at a checkpoint; refused calls diffed against the pre-state; roles re-read after 1.3 M ledgers and after every temporary entry has expired.",
          "runtime monitor: recorded-authorisation replay with principal substitution over the full entry-point x principal x history matrix"),
  "C07": ("Runtime monitoring, finite matrix enumerated completely: 16 user-facing entry points x authorisers (named address, counterparty, contract "
-         "owner, stranger, nobody, everyone but the named address, named address for other arguments), states without allowance / with minter or "
-         "owner as spender / negative mints where nobody may succeed, plus the contract-as-caller variant through a forwarding proxy.",
+         "owner, stranger, nobody, everyone but the named address, named address for other arguments - one variant per argument position), states without "
+         "allowance / with minter or owner as spender / negative mints where nobody may succeed, states in which the named address has pre-approved the contracts involved, plus the contract-as-caller variant through a forwarding proxy.",
          "runtime monitor: recorded-authorisation replay with authoriser substitution over the entry-point x authoriser matrix + proxy variant"),
  "C08": ("Runtime monitoring, exhaustive within stated bounds: every rotation history of bounded length for every retention setting (0 .. u64::MAX) "
-         "and number of initial sets; after every step every installed set is probed on every path with fresh proofs and with byte-identical "
+         "and number of initial sets, with ledger advancement between steps; after every step every installed set is probed on every path with fresh proofs and with byte-identical "
          "earlier proofs / approval calls, and compared with current_epoch - epoch <= retention.",
          "runtime monitor: bounded-exhaustive history enumeration with per-step probes of every installed set"),
  "C09": ("Runtime monitoring, exhaustive within stated bounds: every sequence of (boundary-relative ledger time x rotation kind) per minimum delay "
-         "(0 .. u64::MAX), executed with explicitly set ledger timestamps and matching ledger sequence numbers against a model clock updated only "
+         "(0 .. u64::MAX), deployed at ledger time 0, 1, an ordinary or a very late time, executed with explicitly set ledger timestamps and matching ledger sequence numbers against a model clock updated only "
          "on success; decisive boundary probes at the end of every history.",
          "runtime monitor: bounded-exhaustive ledger-time schedules vs model clock"),
  "C10": ("Runtime monitoring: differential execution of the tree codec against a hand-written Solidity ABI encoder on generated messages, and a "
@@ -50,12 +50,12 @@ CHECKS = {
          "word), with a panic monitor; the thorough tier repeats ~300k inputs under valgrind memcheck.",
          "runtime monitor: differential + re-encode fix-point oracle over hostile inputs, panic monitor, valgrind memcheck (thorough)"),
  "C11": ("Runtime monitoring: determinism twin (same world at another ledger sequence/time), id algebra over three service instances, every local "
-         "deployment configuration (supply x minter), colliding redeployments, canonical registrations and remote deploy messages stepped against "
+         "deployment configuration (supply x minter), colliding redeployments, deployments replayed with the deployer's authorisation for other arguments, canonical registrations and remote deploy messages stepped against "
          "a write-once registry model with a full registry sweep after every operation and after ledger advancement; every deployed token "
          "(running the tree token code) is read back and receives an approved inbound transfer at a checkpoint.",
          "runtime monitor: registry reference model + write-once sweep + post-deployment behavioural probe"),
  "C12": ("Runtime monitoring: a reference token (checked balances, allowances with expiry, minter set, owner) is stepped in lock-step with the "
-         "native InterchainToken through histories that cross allowance expiry, temporary-entry eviction and 1.3 M-ledger jumps; every balance, "
+         "native InterchainToken through histories that cross allowance expiry, temporary-entry eviction, 1.3 M-ledger jumps and the expiry of every temporary entry; every balance, "
          "allowance, minter flag and the owner are read back after every step; standard token events compared with independently built values.",
          "runtime monitor: reference-model token + full read-back + event-content oracle"),
  "C13": ("Runtime monitoring: each outbound call is executed under an exactly specified authorisation set (own, none, stranger's, own for another "
@@ -68,19 +68,19 @@ CHECKS = {
          "runtime monitor: balance reference model + offline conservation over event log"),
  "C15": ("Runtime monitoring: migration-window model checked on all five production contracts and a test target, run natively, over every "
          "bounded-length sequence over {upgrade, migrate} x {owner, former owner, stranger, nobody} + mid-history ownership transfer (exhaustive in "
-         "bounds); real code swaps to committed Wasm; Upgrader calls over version x authorisation-coverage x migration-data combinations on native "
+         "bounds) with ledger advancement between steps; real code swaps to committed Wasm; Upgrader calls over version x authorisation-coverage x migration-data combinations on native "
          "and really swapped targets with whole-ledger diff on failure.",
          "runtime monitor: window reference model over bounded-exhaustive sequences + Upgrader fault combinations with ledger diff"),
  "C16": ("Runtime monitoring: single-deviation deliveries to the shipped Example app and to a minimal app using the executable interface, each "
-         "compared with the gateway message model, with time passing before approvals and before deliveries, redelivery and redelivery after the "
+         "compared with the gateway message model (including approvals for (chain, id) pairs that coincide only when joined with a delimiter), with time passing before approvals and before deliveries, redelivery and redelivery after the "
          "approval was relayed again; failed deliveries diffed against the pre-state; effects observed in the event log.",
          "runtime monitor: delivery-variant oracle against gateway message model + ledger diff"),
  "C17": ("Runtime monitoring: operator-set model stepped with add/remove/transfer/execute under exactly specified authorisation (own, none, "
-         "stranger's, owner's, own for other arguments) and ledger advancement; forwarded calls observed at a probe target that records "
+         "stranger's, owner's, own for other arguments), the target contract itself as a member, and ledger advancement; forwarded calls observed at a probe target that records "
          "(function, args), returns configured values or fails; return values and recorded calls compared as XDR.",
          "runtime monitor: set reference model + probe target call log"),
  "C18": ("Runtime monitoring: remote-deployment requests (single-deviation style) over registered/unregistered ids, foreign callers reusing a salt, "
-         "trusted/untrusted/removed/hub destinations, representable and unrepresentable metadata and all gas boundary values are executed under "
+         "trusted/untrusted/removed/hub destinations, representable and unrepresentable metadata (including NUL bytes, whitespace and over-long strings) and all gas boundary values are executed under "
          "exactly specified authorisation and compared with a registry/trust/balance model; the announced payload is compared with the "
          "independent ABI encoding of the metadata read from the token.",
          "runtime monitor: reference model + announcement oracle (independent ABI encoder) + balance diff"),
@@ -118,7 +118,7 @@ manifest = {
     "checks": checks,
     "notes": ("All 18 properties are decided by runtime monitors written for this task (no Miri/ASan: the nightly toolchain cannot build the Soroban dependency tree offline; valgrind memcheck is used for C10). "
               "Two genuine defects were repaired in /repo with 'fix:' commits (ff606be C12, 03dc987 C16); two are recorded in KNOWN_FINDINGS.txt (C04, C11) because their repair would break the unedited suite. "
-              "Sensitivity is documented in DESIGN.md §10: 140 hand mutants, 54 independently written and confirmed seeded changes under seeded/, 11 property-preserving changes that must stay silent."),
+              "Sensitivity is documented in DESIGN.md §10: 140 hand mutants, 90 independently written and confirmed seeded changes under seeded/, 13 property-preserving changes that must stay silent."),
     "not_applicable": [],
 }
 json.dump(manifest, open(os.path.join(ROOT, "MANIFEST.json"), "w"), indent=1)
